@@ -155,6 +155,20 @@ func genC03(w *simrt.Choices, tier string, avoid map[string]bool) Case {
 			}
 			k.Lines = append(k.Lines, ln)
 		}
+		if w.Choose(3) == 0 {
+			// a second session delivers valid mail at the same time: sessions are isolated from each other
+			for i, nt := 0, 1+w.Choose(2); i < nt; i++ {
+				t := smtpTxn{Token: fmt.Sprintf("bg%d", i), From: "good@example.org", End: "data", Extra: []int{0, 40, 400}[w.Choose(3)]}
+				if i == 0 {
+					t.Greet = "EHLO"
+				}
+				for j, nr := 0, 1+w.Choose(2); j < nr; j++ {
+					t.Rcpts = append(t.Rcpts, fmt.Sprintf("%s%d@%s", smtpLocals[w.Choose(6)], w.Choose(3), smtpDomains[w.Choose(len(smtpDomains))]))
+				}
+				k.Txns = append(k.Txns, t)
+			}
+			return k
+		}
 		if k.Store.Backend == "file" {
 			// a disk fault while a message is being stored, and another transaction
 			// on the same connection afterwards
@@ -365,6 +379,10 @@ func runC03(c *Ctx, cs Case) {
 	switch k.Mode {
 	case "A":
 		c.Go("client", func() { c03History(c, k, exp) })
+		if len(k.Txns) > 0 {
+			c.Go("client-bg", func() { c03PlayWithCut(c, k, exp, "-bg", -1, false) })
+			c.Stat("probe.second_session_alongside", 1)
+		}
 		c.JoinAll()
 	case "B":
 		c03Cuts(c, k, exp, env)
